@@ -65,22 +65,21 @@ theorem c17_set_disjoint_not_overlap (c : Chain) (s e : Rat) (x : Nat)
     (match setExpr (some c) s e x with | .overlap => False | _ => True) :=
   NR.Proofs.TimeDep.setExpr_disjoint_not_overlap c s e x hc hlt hdis
 
-/-- Full statement "for any set of time frames" is FALSE of the code as modelled (finding E10):
-an interval that starts in a gap and reaches into a later frame is accepted and breaks
-well-formedness … -/
-theorem c17_set_counterexample :
-    ∃ (c : Chain) (s e : Rat) (x : Nat) (c' : Chain),
-      Good c ∧ s < e ∧ setExpr (some c) s e x = .ok c' ∧ ¬ WF c' :=
-  NR.Proofs.TimeDep.setExpr_counterexample
+/-- "For any set of time frames": whatever `SetExpression` accepts keeps the chain good — no
+disjointness hypothesis. (Before the repair recorded in KNOWN_FINDINGS.txt as `fixed: property=C17`
+an interval starting in a gap and reaching into a later frame was accepted, the chain lost
+well-formedness and first-in-first-out failed by minutes.) -/
+theorem c17_set_accepts_only_good (c : Chain) (s e : Rat) (x : Nat) (c' : Chain)
+    (hc : Good c) (hx : x ≠ 0) (hlt : s < e)
+    (h : setExpr (some c) s e x = .ok c') : Good c' :=
+  NR.Proofs.TimeDep.setExpr_accepts_only_good c s e x c' hc hx hlt h
 
-/-- … and first-in-first-out then fails by minutes. -/
-theorem c17_fifo_counterexample :
-    ∃ (durs : Nat → Rat) (c : Chain) (v₁ v₂ d₁ d₂ : Rat),
-      NonnegDurs durs ∧ 0 ≤ v₁ ∧ v₁ ≤ v₂ ∧
-      build none [(28800, 32400, 1), (27000, 30600, 2)] = .ok (some c) ∧
-      valueAt durs (some c) v₁ = some d₁ ∧ valueAt durs (some c) v₂ = some d₂ ∧
-      v₂ + d₂ < v₁ + d₁ :=
-  NR.Proofs.TimeDep.fifo_counterexample
+/-- Hence every chain built from a list of non-empty frames is good, and the three claims hold
+for it (corollary used by the `td` correspondence stream). -/
+theorem c17_build_good (frames : List (Rat × Rat × Nat)) (c : Chain)
+    (hne : ∀ f ∈ frames, f.1 < f.2.1 ∧ f.2.2 ≠ 0)
+    (h : build none frames = .ok (some c)) : Good c :=
+  NR.Proofs.TimeDep.build_good frames c hne h
 
 /-! Non-vacuity: a concrete chain (two adjacent frames and a gapped one) meets every hypothesis. -/
 example : Good exampleChain := NR.Proofs.TimeDep.exampleChain_good
@@ -96,5 +95,5 @@ end NR.Props.C17
 #print axioms NR.Props.C17.c17_set_first
 #print axioms NR.Props.C17.c17_set_preserves
 #print axioms NR.Props.C17.c17_set_disjoint_not_overlap
-#print axioms NR.Props.C17.c17_set_counterexample
-#print axioms NR.Props.C17.c17_fifo_counterexample
+#print axioms NR.Props.C17.c17_set_accepts_only_good
+#print axioms NR.Props.C17.c17_build_good
